@@ -151,6 +151,20 @@ func (w *World) doInject(mv *AdvMove) {
 	default:
 		return
 	}
+	if variant == "bad" {
+		// a message of the right kind for the right swap whose fields fail validation
+		if m, ok := body.(map[string]interface{}); ok {
+			switch tpl {
+			case "opening":
+				m["tx_id"] = "not-hex-" + strings.Repeat("z", 10)
+			case "coop":
+				m["privkey"] = "abcd"
+			case "agreement-in", "agreement-out", "request-in", "request-out":
+				m["pubkey"] = "02abcdef"
+			}
+			w.Probe("inject:invalid-fields:" + tpl)
+		}
+	}
 	payload, _ := json.Marshal(body)
 	w.Probe("inject:" + tpl)
 	w.Observe(&Obs{Node: from, Kind: "inject", Msg: &MsgObs{From: from, To: to, Type: typ, Payload: payload, SwapID: id}, Str: mv.Arg})
@@ -203,6 +217,18 @@ func junkMessage(variant, id string) (int, []byte) {
 		return 42087, []byte(`{"swap_id":"` + id + `","message":"x"}`)
 	case "low-type":
 		return 1, []byte(`{"swap_id":"` + id + `"}`)
+	case "over-limit-cancel", "over-limit-cancel-1", "over-limit-cancel-1023":
+		// a well-formed cancel for a real swap id, just over the 100 KiB limit
+		extra := map[string]int{"over-limit-cancel": 700, "over-limit-cancel-1": 1, "over-limit-cancel-1023": 1023}[variant]
+		head := `{"swap_id":"` + id + `","message":"`
+		tail := `"}`
+		pad := 100*1024 + extra - len(head) - len(tail)
+		return MsgCancel, []byte(head + strings.Repeat("A", pad) + tail)
+	case "over-limit-request":
+		// a well-formed swap-out request padded with JSON whitespace to just over 100 KiB
+		body := `{"protocol_version":7,"swap_id":"` + hex.EncodeToString(rand32()) + `","asset":"","network":"regtest","scid":"100x1x0","amount":200000,"pubkey":"` + hex.EncodeToString(nodeKey(9).PubKey().SerializeCompressed()) + `","acceptable_premium":100000}`
+		pad := 100*1024 + 512 - len(body)
+		return MsgSwapOutRequest, []byte(body[:len(body)-1] + strings.Repeat(" ", pad) + "}")
 	case "huge":
 		return MsgCancel, []byte(`{"swap_id":"` + id + `","message":"` + strings.Repeat("A", 101*1024) + `"}`)
 	case "deep":
